@@ -20,6 +20,7 @@ const (
 	vRet   // value returned by an innermost native that raises nothing
 	vSW    // value returned by a swallowing catch
 	vExObj // value inside the pre-made *Exception
+	vR99   // value thrown by the return() method of the forof-step/return-throws iterator
 	nVals
 )
 
@@ -212,7 +213,7 @@ func predict(c *Chain) *Expect {
 			if i == n {
 				res = m.nativeRaise(i)
 			} else {
-				res = m.exit(f.Exit, m.cross(fl))
+				res = m.exit(i, f.Exit, m.cross(fl))
 			}
 			fl = m.entry(i, f.Entry, res)
 		}
@@ -310,8 +311,11 @@ func excOf(fl flight) *ETerm {
 	return &ETerm{Kind: ekExc, Val: fl.Val, Site: fl.Site, Sticky: fl.Sticky}
 }
 
-// exit: what the native frame holds after calling the next frame through convention x.
-func (m *model) exit(x Exit, fl flight) result {
+// exit: what the native frame i holds after calling the next frame through convention x.
+func (m *model) exit(i int, x Exit, fl flight) result {
+	if x == xForOfStep || x == xForOfStepRT {
+		return m.forOfStep(i, x == xForOfStepRT, fl)
+	}
 	switch fl.Kind {
 	case fNormal:
 		return result{Kind: rRet, Val: fl.Val, Fl: flight{IntrPending: fl.IntrPending}}
@@ -331,6 +335,31 @@ func (m *model) exit(x Exit, fl flight) result {
 		case xCallable, xExportFnErr:
 			return result{Kind: rErr, Err: fl.Err}
 		}
+	}
+	return result{Kind: rThrough, Fl: fl}
+}
+
+// forOfStep: Runtime.ForOf "is a Go equivalent of for-of loop"; the step callback of frame i calls the next
+// frame and panics with the error it gets. ECMAScript for-of semantics (IteratorClose): when the body
+// completes abruptly by a throw, return() is called and the ORIGINAL exception propagates even if return()
+// throws; when the body stops the loop normally, an exception thrown by return() propagates. While an
+// uncatchable condition (or a foreign panic) unwinds no script code runs, so return() is not called.
+func (m *model) forOfStep(i int, returnThrows bool, fl flight) result {
+	logR := func() { m.exp.Log = append(m.exp.Log, expLog{Tag: "r", Frame: i}) }
+	switch fl.Kind {
+	case fThrown:
+		logR()
+		return result{Kind: rThrough, Fl: fl}
+	case fNormal:
+		if fl.IntrPending {
+			// cannot happen: the callee of a native frame is a script frame
+			return result{Kind: rThrough, Fl: flight{Kind: fUncatchable, Err: &ETerm{Kind: ekIntr}}}
+		}
+		logR()
+		if returnThrows {
+			return result{Kind: rThrough, Fl: flight{Kind: fThrown, Val: known(vR99), Site: r99Site}}
+		}
+		return result{Kind: rRet, Val: fl.Val}
 	}
 	return result{Kind: rThrough, Fl: fl}
 }
@@ -359,6 +388,18 @@ func (m *model) entry(i int, e Entry, res result) flight {
 }
 
 func (m *model) host(h HostEdge, fl flight) hostExp {
+	if h == hTryForOfStep {
+		if fl.Kind == fNormal && fl.IntrPending {
+			// the iterator's return() is script code: interrupted at its first instruction
+			fl = flight{Kind: fUncatchable, Err: &ETerm{Kind: ekIntr}}
+		}
+		res := m.forOfStep(0, false, fl)
+		if res.Kind == rRet {
+			return hostExp{Kind: hxValue, Val: res.Val}
+		}
+		fl = res.Fl
+		h = hTryGet // from here on: like any Try-wrapped panicking call
+	}
 	if fl.Kind == fNormal && fl.IntrPending {
 		if h == hRun || h == hTryForOf {
 			// script code (the global code, resp. the iterator's next()) continues after the native returned: interrupted at the next instruction
